@@ -1298,3 +1298,84 @@ Definition cstep (k : kcfg) (c : conn) (e : cev) : conn :=
   end.
 
 Definition crun (k : kcfg) (c : conn) (es : list cev) : conn := fold_left (cstep k) es c.
+
+(* ------------------------------------------------------------------ *)
+(* One host together with the application's handle table (C13 ownership).
+   `owned`: the fds some application handle holds (TcpListener, pending
+   connect, TcpStream, UdpSocket); `accepted`: ghost log of the fds that
+   accept has returned.  The application can only name fds it holds; the
+   network is adversarial (any packet may arrive).                        *)
+
+Record okern := mkok { okk : kernel; owned : list N; acc_log : list N }.
+Definition own (o : okern) (fd : N) : bool := existsb (N.eqb fd) (owned o).
+Definition disown (l : list N) (fd : N) : list N := filter (fun f => negb (f =? fd)) l.
+
+Inductive oev :=
+| OListen (a : sockaddr)                    (* TcpListener::bind = bind + listen *)
+| OConnect (v : bool) (peer : sockaddr)     (* TcpStream::connect, first poll (FdGuard closes on error) *)
+| OPollConnect (fd : N) (peer : sockaddr)   (* later poll of the pending connect *)
+| OAccept (fd : N)
+| OSend (fd : N) (b : list N) | ORecv (fd n : N) | OShutdown (fd : N)
+| OClose (fd : N)                            (* drop of a handle; also cancelling a pending connect *)
+| OUdpBind (a : sockaddr) | OUdpSend (fd : N) (pl : list N) (dst : sockaddr)
+| ODeliver (p : packet) | OEgress.
+
+Definition has_tcb_b (k : kernel) (fd : N) : bool :=
+  match lookup k fd with Some s => match s_tcb s with Some _ => true | None => false end | None => false end.
+Definition is_listening (k : kernel) (fd : N) : bool :=
+  match lookup k fd with Some s => match s_listen s with Some _ => true | None => false end | None => false end.
+Definition is_dgram (k : kernel) (fd : N) : bool :=
+  match lookup k fd with Some s => negb (s_stream s) | None => false end.
+
+Definition ostep (o : okern) (e : oev) : okern :=
+  let k := okk o in
+  match e with
+  | OListen a =>
+      match k_bind k a true with
+      | (k1, Ready fd) => mkok (k_listen k1 fd (def_backlog (cfg k1))) (owned o ++ [fd]) (acc_log o)
+      | (k1, _) => mkok k1 (owned o) (acc_log o)
+      end
+  | OConnect v peer =>
+      let '(k1, fd) := insert_sock k (new_socket v true) in
+      match k_poll_connect k1 fd peer with
+      | (k2, Err _) => mkok (k_close k2 fd) (owned o) (acc_log o)
+      | (k2, _) => mkok k2 (owned o ++ [fd]) (acc_log o)
+      end
+  | OPollConnect fd peer =>
+      if own o fd && has_tcb_b k fd then
+        match k_poll_connect k fd peer with
+        | (k2, Err _) => mkok (k_close k2 fd) (disown (owned o) fd) (acc_log o)
+        | (k2, _) => mkok k2 (owned o) (acc_log o)
+        end
+      else o
+  | OAccept fd =>
+      if own o fd && is_listening k fd then
+        match k_poll_accept k fd with
+        | (k1, Ready (child, _)) => mkok k1 (owned o ++ [child]) (acc_log o ++ [child])
+        | (k1, _) => mkok k1 (owned o) (acc_log o)
+        end
+      else o
+  | OSend fd b => if own o fd then mkok (fst (k_poll_send k fd b)) (owned o) (acc_log o) else o
+  | ORecv fd n => if own o fd then mkok (fst (k_poll_recv k fd n)) (owned o) (acc_log o) else o
+  | OShutdown fd => if own o fd then mkok (fst (k_poll_shutdown k fd)) (owned o) (acc_log o) else o
+  | OClose fd => if own o fd then mkok (k_close k fd) (disown (owned o) fd) (acc_log o) else o
+  | OUdpBind a =>
+      match k_bind k a false with
+      | (k1, Ready fd) => mkok k1 (owned o ++ [fd]) (acc_log o)
+      | (k1, _) => mkok k1 (owned o) (acc_log o)
+      end
+  | OUdpSend fd pl dst =>
+      if own o fd && is_dgram k fd then mkok (fst (k_udp_send_to k fd pl dst)) (owned o) (acc_log o) else o
+  | ODeliver p => mkok (k_deliver k p) (owned o) (acc_log o)
+  | OEgress => mkok (fst (k_egress k)) (owned o) (acc_log o)
+  end.
+
+Definition orun (o : okern) (es : list oev) : okern := fold_left ostep es o.
+Definition oinit (c : kcfg) (a : list ip) : okern := mkok (new_kernel c a) [] [].
+
+(* fds sitting in some listener's accept queue *)
+Definition ready_of (k : kernel) : list N :=
+  flat_map (fun e => match s_listen (snd e) with Some l => ready l | None => [] end) (socks k).
+Definition is_synrcvd (s : socket) : bool :=
+  match s_tcb s with Some t => tstate_eqb (t_state t) SynReceived | None => false end.
+Definition is_listener (s : socket) : bool := match s_listen s with Some _ => true | None => false end.
